@@ -168,6 +168,11 @@ func (table *Table) Encode() []byte {
 		}
 	}
 
+	if markAttachClassDefOffset > 0xFFFF || markGlyphSetsDefOffset > 0xFFFF ||
+		len(table.MarkGlyphSets) > 0xFFFF {
+		panic("GDEF table too large for 16-bit offsets")
+	}
+
 	buf := make([]byte, 12, total)
 	// We always write table version 1.0:
 	buf[0] = byte(version >> 24)
